@@ -131,7 +131,7 @@ theorem TInv.enqSyn {port : U16} {issX issY : Seq} {subX subY delX : List UInt8}
     TInv port issX issY subX subY delX (t.enqueueBuilt hd) := by
   unfold enqueueBuilt
   rw [if_pos (by simp [hsyn])]
-  refine ⟨h.lp, h.st, h.iss, h.out, fun g hg => ?_, h.one, h.heap, h.rcv0, h.rcv1⟩
+  refine ⟨h.lp, h.st, h.iss, h.out, fun g hg => ?_, h.one, h.heap, h.rcv0, h.rcv1, h.irs⟩
   simp only [List.map_append, List.map_cons, List.map_nil, List.mem_append, List.mem_singleton] at hg
   rcases hg with hg | rfl
   · exact h.rtx g hg
@@ -160,7 +160,7 @@ theorem synBlock_synSent {port : U16} {issX issY : Seq} {subX subY delX : List U
           { t with rcv.irs := seg.seq, rcv.nxt := seg.seq + 1, snd.wnd := seg.wnd, snd.wl1 := seg.seq,
                    snd.wl2 := seg.ack, state := st } := by
       intro st h3 hne
-      refine ⟨h.lp, h3, h.iss, h.out, h.rtx, h.one, h.heap, fun h0 => absurd h0 hne, fun _ => ⟨?_, ?_⟩⟩
+      refine ⟨h.lp, h3, h.iss, h.out, h.rtx, h.one, h.heap, fun h0 => absurd h0 hne, fun _ => ⟨?_, ?_⟩, fun _ => hseq⟩
       · show seg.seq + 1 = _
         rw [hdel, hin, hseq]
         simp
@@ -238,7 +238,7 @@ theorem textBlock_inv {port : U16} {issX issY : Seq} {subX subY delX : List UInt
       refine TInv.of_fr ?_ (Fr.enqAck _)
       have hslice := slice_accept subY p q text.length acc hpq hacc'
       rw [← htext, ← ha] at hslice
-      refine ⟨h.lp, h.st, h.iss, h.out, h.rtx, h.one, h.heap, fun hs => absurd hs hns, fun _ => ⟨?_, ?_⟩⟩
+      refine ⟨h.lp, h.st, h.iss, h.out, h.rtx, h.one, h.heap, fun hs => absurd hs hns, fun _ => ⟨?_, ?_⟩, h.irs⟩
       · show t.rcv.nxt + BitVec.ofNat 32 acc = _
         rw [hnxt, add_ofNat_assoc]
         congr 2
